@@ -53,6 +53,9 @@ CHECKS["C14"] = dict(engine="enum", technique="explicit-state model checking: BF
 CHECKS["C15"] = dict(engine="govm", technique="explicit-state model checking over event histories: every history is replayed on a fresh real endpoint manager inside one controlled execution (virtual clock, in-memory servers, all random draws enumerated); seeds = all prefixes of long scripted histories, neighbourhoods enumerated to depth 2 (3); long histories additionally under all schedules with one deviation",
              text="Events: round-robin call, consistent-hash call, server i healthy/refusing/silent, clock +1/5/30/60 s (the 1 s status checker runs by itself). Per transition: no endpoint without failed calls leaves rotation, none with fewer than two failures since (re)instatement, 5 consecutive failures over 5 s put it out after the next check while another is active, probes at most once per 30 s, reinstated on the first successful probe and kept blocked after a failed one, calls still attempted when everything is blocked, hashed calls stable while the set is unchanged.",
              note="'In rotation' read through an in-package accessor and cross-checked with where calls go; canonical keys (distinct outcomes) are computed from the real objects.", ref="§5 C15")
+CHECKS["C01"] = dict(engine="govm", technique="bounded-exhaustive enumeration of calls (every corpus interface function x 1-deviation value products x context/status menus x outcomes x filter registrations) executed end to end on the real client and server stacks under the controlled scheduler, plus deviation-bounded exhaustive schedules for concurrent callers",
+             text="The working-tree tars2go generates proxies and dispatchers for every interface function of the IDL corpus (169 functions quick); generated servants forward to a scripted handler. Real proxy -> ServantProxy -> AdapterProxy -> TarsClient -> in-memory TCP -> TarsServer -> tcpHandler -> Protocol -> generated Dispatch. Per function: every parameter / out parameter / return position over its value lattice, reused out variables, one-way; request/response context and status menus; plain and *tars.Error outcomes; all 8x8 client x server filter registrations with exact filter-order logs; 2-3 concurrent callers sharing a proxy under all schedules within 1-3 deviations (3 default policies).",
+             note="Values are compared through an independent value model (verif/ref) with nil = empty containers and bit-exact floats; the deviation-bounded product covers one varied position at a time.", ref="§5 C01")
 NOT_YET = {}
 ALL = ["C%02d" % i for i in range(1, 21)]
 
